@@ -26,7 +26,7 @@ func main() {
 		cwd, _ := os.Getwd()
 		f, err := os.OpenFile(p, os.O_APPEND|os.O_CREATE|os.O_WRONLY, 0o644)
 		if err == nil {
-			b, _ := json.Marshal(map[string]interface{}{"argv0": os.Args[0], "args": os.Args[1:], "cwd": cwd})
+			b, _ := json.Marshal(map[string]interface{}{"argv0": os.Args[0], "args": os.Args[1:], "cwd": cwd, "from": os.Getenv("VERIF_FROM")})
 			f.Write(append(b, '\n'))
 			f.Close()
 		}
